@@ -222,9 +222,13 @@ impl Chain {
             self.steps.push(json!({"c": c, "r": r.clone(), "same": "t", "post": []}));
         } else {
             self.steps.push(json!({"c": c, "r": r.clone(), "same": "f", "post": post.clone()}));
+            // a handle stays "alone with its file" when only the working directory moved
+            let tree_changed = post["e"] != self.cur["e"] || post["f"] != self.cur["f"];
             self.cur = post;
             self.curkey = key;
-            self.dirty_handles();
+            if tree_changed {
+                self.dirty_handles();
+            }
         }
         r
     }
